@@ -63,8 +63,10 @@ func (it *c20Iter) loop() {
 	}
 }
 
-func (it *c20Iter) blocking() bool { return it.kind == "queue-iter" || strings.HasSuffix(it.kind, "-blocking") }
-func (it *c20Iter) reverse() bool  { return strings.Contains(it.kind, "-rev") }
+func (it *c20Iter) blocking() bool {
+	return it.kind == "queue-iter" || strings.HasSuffix(it.kind, "-blocking")
+}
+func (it *c20Iter) reverse() bool { return strings.Contains(it.kind, "-rev") }
 
 func runC20(r *kit.Run) {
 	n := int64(r.Scale(1400, 400000))
